@@ -313,6 +313,9 @@ def _c11_symbolic(run):
     # unbounded, symbolic: the closed-form steps of Sporadic / Periodic are exactly the increase points of the closed-form bound
     apalache_stage(run, "unbounded-obligations", "ArrivalProofs.tla", ["StepsExact", "NextStepExact"])
     bigtrace_stage(run, "large-magnitudes", "big", extra=["--only", "eta"])
+    # the discrete time model underneath (src/time.rs: open / closed interval conventions that turn a step delta into the
+    # offset delta - 1, saturating subtraction, scaling, sums), every operator on small and on large values
+    bigtrace_stage(run, "time-model", "timeops")
 
 
 @check("C16")
@@ -372,6 +375,38 @@ def c06(run):
     trace_stage(run, "suite-scenarios", "suite", extra=["--only", "rta"],
                 nontrivial=lambda e: e["out"].get("ok", -1) not in (0, e["in"]["tua"].get("C", -2)),
                 keyfn=lambda e: {k: v for k, v in e["in"].items() if k != "tags"})
+    _scaled_systems(run)
+
+
+def _scaled_systems(run):
+    """Large magnitudes for the analyses themselves.  R3: the defining equations of the preemptive / non-preemptive /
+    floating FP analyses, of preemptive EDF and of FIFO are homogeneous (MCAnalyses, invariant Homogeneous, K = 2, 3 on
+    41 472 configurations).  Hence the bound of a system scaled by K = 2^33..2^50 must be K times the bound of the small
+    system: the small system is validated equationally by TLC, the relation by Apalache over unbounded integers."""
+    mc_stage(run, "homogeneity", "MCAnalyses.tla", "MCAnalysesHomog.cfg", workers=16)
+    wd = run.sub("scaled-systems")
+    path = os.path.join(wd, "events.ndjson")
+    vflib.run_driver("scale", path, run.tier, run.seed)
+    evs = vflib.read_events(path)
+    small = os.path.join(wd, "small.ndjson")
+    with open(small, "w") as f:
+        for e in evs:
+            if e["op"] == "rta":
+                f.write(json.dumps(e) + "\n")
+    trace_stage(run, "scaled-systems-small", "scale", trace_path=small,
+                nontrivial=lambda e: e["out"].get("ok", -1) not in (0, e["in"]["tua"].get("C", -2)),
+                keyfn=lambda e: {k: v for k, v in e["in"].items() if k != "tags"})
+    pairs = [e for e in evs if e["op"] == "scale"]
+    for e in pairs:
+        run.count({"policy": e["in"]["policy"], "K": e["in"]["K"], "small": e["in"]["small"]}, "ok" in e["out"].get("small", {}))
+    bad, nrel = vflib.big_check(wd, pairs, chunk=200)
+    for b in bad:
+        r = pairs[b]
+        run.fail(dict(stage="scaled-systems", op="scale", check="bound_scales_with_the_system", record=r,
+                      detail="small %s, K = %d, big %s" % (r["out"].get("small"), r["in"]["K"], r["out"].get("big")), tags=[]))
+    run.cov["traces_validated_against_impl"] += len(pairs)
+    run.stage("scaled-systems", kind="large-magnitude-trace-validation", tool="apalache-mc 0.58 (Z3)", driver="scale",
+              pairs=len(pairs), refuted=len(bad))
 
 
 SCHED_RULE = ("systems: task sets (2-3 tasks, thorough 2-4; periodic / sporadic+jitter / delta-min-prefix arrivals, T<=7 (10), C<=3 (4), "
